@@ -125,33 +125,36 @@ func (se *subscriptionEntry) prepareResponse(resp *requests.Response) *requests.
 	}
 }
 
+// Close asks the listener to stop. It may be called any number of times, from any
+// goroutine, before, while or after Listen runs: the stop signal is the closing of
+// closeCh, which happens exactly once and never blocks
 func (se *subscriptionEntry) Close() {
 	verifhook.At("sub.close.enter", se)
-	se.TryLock()
+	se.Lock()
 	verifhook.At("sub.close.after_trylock", se)
 	isClosed := se.isClosed
+	se.isClosed = true
 	se.Unlock()
 	if isClosed {
 		verifhook.At("sub.close.already_closed", se)
 		return
 	}
 	verifhook.At("sub.close.before_send", se)
-	se.closeCh <- struct{}{}
+	close(se.closeCh)
 	verifhook.At("sub.close.sent", se)
 }
 
 func (se *subscriptionEntry) Listen(conn net.Conn) {
 	defer func() {
 		verifhook.At("sub.listen.defer.enter", se)
-		se.queryerCloseCh <- struct{}{}
-		verifhook.At("sub.listen.defer.queryer_closed", se)
-		se.Lock()
-		defer se.Unlock()
-		verifhook.At("sub.listen.defer.locked", se)
+		// tell the upstream reader and closer to stop: closing wakes all of them and,
+		// unlike a send, does not wait for a receiver. respCh is left open on purpose,
+		// the reader may still be sending on it
 		close(se.queryerCloseCh)
-		close(se.closeCh)
-		close(se.respCh)
-		se.isClosed = true
+		verifhook.At("sub.listen.defer.queryer_closed", se)
+		verifhook.At("sub.listen.defer.locked", se)
+		// later Close calls (stop, terminate, disconnect) become no-ops
+		se.Close()
 		verifhook.At("sub.listen.defer.closed", se)
 	}()
 
